@@ -16,7 +16,7 @@ MANIFEST = {
         "design_ref": "DESIGN.md 3/C19",
     }
 }
-PROPS = ["Nstd.Path.Props", "Nstd.Path.FsProps", "Nstd.Path.Props2", "Nstd.Path.FsProps2", "Nstd.Path.PropsStr", "Nstd.Path.PropsScan"]
+PROPS = ["Nstd.Path.Props", "Nstd.Path.FsProps", "Nstd.Path.Props2", "Nstd.Path.FsProps2", "Nstd.Path.PropsStr", "Nstd.Path.PropsScan", "Nstd.Path.PropsObj"]
 LEAN_TARGETS = PROPS + ["drv_path"]
 DRIVER = "drv_path"
 SOURCES = ["path.cpp", C.REPO / "src/File.cpp", C.REPO / "src/Directory.cpp", C.REPO / "src/String.cpp",
@@ -670,6 +670,32 @@ def fs_reference(hist, impl):
             wd = ([c for c in rr[1].split("/") if c] if rr[0] == "found" and rr[2][0] == "d" else ["s"])
             if res != "cwd=" + hx("".join("/" + c for c in wd)) or after != tree:
                 bad = "getCurrentDirectory must answer the working directory whatever buffer size getcwd demands"
+        if not bad and op == "fsobj":
+            # object life cycle: an object is open iff it holds a descriptor; the process holds exactly one descriptor per
+            # open object after every item (File::copy holds none afterwards, whatever failed inside); none at the end
+            want, openo = ["obj"], set()
+            for it in t[1].split(","):
+                f = it.split(":")
+                if it[0] == "k":
+                    src = py_resolve(tree, unhx(f[1]), True)
+                    readable = src[0] == "found" and src[2][0] == "f"
+                    want.append(f"k=0/{len(openo)} fired={1 if readable else 0}")
+                    continue
+                i = int(it[1])
+                if it[0] == "o":
+                    rr = py_resolve(tree, unhx(f[1]), True)
+                    okk = i not in openo and rr[0] == "found" and rr[2][0] == "f"
+                    if okk:
+                        openo.add(i)
+                    want.append(f"o={1 if okk else 0}/{len(openo)}")
+                elif it[0] in "cx":
+                    openo.discard(i)
+                    want.append(f"{it[0]}=1/{len(openo)}")
+                elif it[0] == "q":
+                    want.append(f"q={1 if i in openo else 0}/{len(openo)}")
+            want.append("end=0")
+            if res != " ".join(want) or after != tree:
+                bad = "File object life cycle / descriptor count: expected " + " ".join(want)
         if not bad and op == "fsconst" and (res != "tmp=" + hx("/tmp") + " home=1" or after != tree):
             bad = "getTempDirectory/getHomeDirectory"
         if not bad and op in ("fsrmdir", "fsrmdiru"):
@@ -733,7 +759,7 @@ def fs_reference(hist, impl):
                     bad = "File::unlink did not remove exactly that entry"
             elif after != tree:
                 bad = "failed File::unlink changed the tree"
-        if not bad and op in ("fsexists", "fsreadall", "fsls") and after != tree:
+        if not bad and op in ("fsexists", "fsreadall", "fsls", "fsobj") and after != tree:
             bad = f"{op} changed the tree"
         if not bad and op == "fsexists":
             a_ = py_resolve(tree, unhx(t[1]), False)[0] == "found"
@@ -844,6 +870,43 @@ def rand_script(rng):
     return ",".join(its).replace("w-", "w-")
 
 
+OBJ_HITS = {}
+
+
+def rand_obj_script(rng):
+    """items of an `fsobj` line; counts what the items aim at (evidence: obj_branch_hits)"""
+    its, openo = [], set()
+
+    def hit(k):
+        OBJ_HITS[k] = OBJ_HITS.get(k, 0) + 1
+    for _ in range(rng.randrange(2, 10)):
+        k = rng.random()
+        i = rng.randrange(3)
+        if k < 0.40:
+            pth = fs_path(rng, rng.choice(FILEN + FILEN + ["a", "zz", "i", "m"]), allow_out_final=False)
+            fl = rng.choice([1, 1, 5])
+            its.append(f"o{i}:{hx(pth)}:{fl}")
+            hit("open-on-open" if i in openo else "open-append" if fl == 5 else "open")
+            openo.add(i)        # (may have failed: the counter is only a generator-side estimate)
+        elif k < 0.58:
+            its.append(f"c{i}")
+            hit("close-open" if i in openo else "close-closed")
+            openo.discard(i)
+        elif k < 0.76:
+            its.append(f"q{i}")
+            hit("isOpen")
+        elif k < 0.88:
+            its.append(f"x{i}")
+            hit("destroy-open" if i in openo else "destroy-closed")
+            openo.discard(i)
+        else:
+            src = fs_path(rng, rng.choice(FILEN + FILEN + ["a", "zz"]), allow_out_final=False)
+            n = rng.choice("01")
+            its.append(f"k:{hx(src)}:{hx('zz9')}:{n}")
+            hit("copy-lseek" + n + "-fails")
+    return ",".join(its)
+
+
 def fs_random_history(rng, n):
     h = fs_setup(rng)
     for _ in range(n):
@@ -911,6 +974,8 @@ def fs_random_history(rng, n):
                 h.append(f"fscdl {hx(fs_path(rng, rng.choice(DIRN + ['i', 'l', 'zz'])))} {rng.choice([0, 1, 4096, 4097, 8193, 20000, 70000])}")
             else:
                 h.append("fsconst -")
+        elif k < 0.845:
+            h.append(f"fsobj {rand_obj_script(rng)}")
         elif k < 0.85:
             h.append(f"fsabspath {hx(rand_path(rng, 3))}")
         elif k < 0.95:
@@ -948,7 +1013,10 @@ FS_SMALL = [f"fscreate {hx(p)}" for p in ["a", "a/f", "a/f/x", "c/b/a", "a/l", "
            [f"fslsp {hx(p)} {hx(pt)} {d} {m}" for p, pt in [("a", ""), ("a", "*"), ("a", "?"), ("a", "l"), ("", "*"), ("", "?"), ("a/l", "x"), ("a/f", "*"), ("a", "F")] for d in "01" for m in "012"] + \
            [f"fsrmdiru {hx(p)} {r} {m}" for p in ["a", "a/b", "a/l", "c"] for r in "01" for m in "12"] + \
            [f"fscd {hx(d)} {hx(q)}" for d, q in [("a", "f"), ("a", "b/g"), ("a/l", "x"), ("i", "f"), ("zz", "a/f"), ("a/f", "a"), ("a/b", "/s/a"), ("a", ""), ("a", "l"), ("", "a"), ("a", "n")]] + \
-           ["fsconst -"] + [f"fsopenf {hx(p_)} {fl}" for p_ in ("a/f", "a/h", "a", "zz/h") for fl in (1, 2, 6, 7, 14)] + \
+           ["fsconst -"] + [f"fsobj {sc}" for sc in (
+               f"o0:{hx('a/f')}:1,q0,o0:{hx('a/f')}:1,q0,c0,q0,c0", f"o0:{hx('a/f')}:5,o1:{hx('a/f')}:1,o2:{hx('a/b/g')}:1,q1,x1,q1,c0,q2",
+               f"o0:{hx('a')}:1,q0,o1:{hx('zz')}:1,o2:{hx('a/l')}:1,o2:{hx('a/b/m')}:1,q2", f"k:{hx('a/f')}:{hx('zz9')}:0,k:{hx('a/f')}:{hx('zz9')}:1",
+               f"o0:{hx('a/f')}:1,k:{hx('a/f')}:{hx('zz9')}:0,q0,k:{hx('a')}:{hx('zz9')}:0,k:{hx('zz')}:{hx('zz9')}:1,x0,q0", "q0,c1,x2,q2")] + [f"fsopenf {hx(p_)} {fl}" for p_ in ("a/f", "a/h", "a", "zz/h") for fl in (1, 2, 6, 7, 14)] + \
            [f"fscdl {hx(p_)} {n_}" for p_ in ("a/b", "a/l", "zz") for n_ in (0, 4097, 70000)] + \
            [f"fsfile {hx('a/f')} {fl} {sc}" for fl in (1, 3, 6) for sc in ("Z0,Z1,Z2,z,r,Z2,Z3", "s0:1,R2,r,s0:1,R0,R3,S0:2,s1:0", "R1,w41,Z2,w42,s0:0,r")] + \
            [f"fsfile {hx('a/f')} {fl} p2,i,o,f,p9,v,s0:0,r,p0" for fl in (1, 2, 3, 7)]
@@ -998,6 +1066,7 @@ def fs_check(ctx, harness, drv):
     m = [l for l in p.stderr.splitlines() if l.startswith("faults-fired")]
     ctx.cov["faults_fired"] = (m[-1] if m else "none") + f" (in a re-run of {len(fl)} histories with faulted ops); per op the fired count is part of the compared observation"
     ctx.cov["samples"] = ctx.cov.get("samples", []) + [" ; ".join(h) for h in hs[-2:]]
+    ctx.cov["obj_branch_hits"] = dict(sorted(OBJ_HITS.items()))
     ctx.cov["fs_states_checked_wellformed_and_sentinel_unchanged"] = ctx.cov["evaluations"] - ev0
     ctx.cov["rule"] += " || " + ctx.cov["fs_scope"] + "; every op line answers its result and a snapshot of the whole world (scratch + sentinel), compared with the Lean model's tree and checked against the laws of C19 by a Python oracle (own path resolver + byte-array file semantics)"
     cleanup_scratch()
